@@ -12,7 +12,7 @@ Consume ==
          [] e.k = "ret" /\ e.a = "notify" -> NotifyRet(e.t, e.id, e.r)
          [] e.k = "call" /\ e.a = "wait" -> WaitCall
          [] e.k = "ret" /\ e.a = "wait" -> e.r = "ok" /\ WaitRet(e.rep)
-         [] e.k = "end" -> e.panics = <<>> /\ End(e.outcome, e.dl, e.listener)
+         [] e.k = "end" -> e.panics = <<>> /\ End(e.outcome, e.dl, e.listener, e.left)
          [] e.k \in {"atom", "aux"} -> UNCHANGED evars
          [] OTHER -> FALSE
 TraceNext == Consume
